@@ -16,14 +16,28 @@ class Atoms:
     """maps calls to atom names. spec: list of (regex, name, kind) with kind 'bool' (call returns
     bool) or 'some' (call returns Option; atom = is Some)."""
 
-    def __init__(self, spec):
+    def __init__(self, spec, call_hook=None, place_hook=None):
         import re
         self.spec = [(re.compile(r), n, k) for r, n, k in spec]
+        self.call_hook = call_hook
+        self.place_hook = place_hook
 
     def of_call(self, call):
+        """-> (name, kind, positive) ; kind 'bool' | 'some'"""
+        if self.call_hook is not None:
+            r = self.call_hook(call)
+            if r is not None:
+                return r
         for r, n, k in self.spec:
             if any(r.search(x) for x in call.names()):
-                return n, k
+                return n, k, True
+        return None
+
+    def of_place(self, body, place):
+        """discriminant read of a place that is not a call result (e.g. `match &self.field`):
+        -> (name, some_is_true) or None"""
+        if self.place_hook is not None:
+            return self.place_hook(body, place)
         return None
 
 
@@ -81,9 +95,13 @@ def extract(body, start, stops, atoms, events=None, outcome_local=None, max_path
                 pl = rv["place"]
                 src = env.get(pl["l"]) if not pl["p"] else None
                 if src and src[0] == "someatom":
-                    env[d] = ("discr", src[1])
+                    env[d] = ("discr", src[1], src[2] if len(src) > 2 else True)
                 else:
-                    env[d] = ("unk", None)
+                    pa = atoms.of_place(body, pl)
+                    if pa is not None:
+                        env[d] = ("discr", pa[0], pa[1])
+                    else:
+                        env[d] = ("unk", None)
             else:
                 env[d] = ("unk", None)
         t = blk["term"]
@@ -102,9 +120,9 @@ def extract(body, start, stops, atoms, events=None, outcome_local=None, max_path
             d = t["dst"]
             if not d["p"]:
                 if a and a[1] == "bool":
-                    env[d["l"]] = ("atom", a[0], True)
+                    env[d["l"]] = ("atom", a[0], a[2])
                 elif a and a[1] == "some":
-                    env[d["l"]] = ("someatom", a[0])
+                    env[d["l"]] = ("someatom", a[0], a[2])
                 else:
                     env[d["l"]] = ("unk", None)
             if t.get("target") is not None:
@@ -148,11 +166,13 @@ def extract(body, start, stops, atoms, events=None, outcome_local=None, max_path
                 return
             if v[0] == "discr":
                 name = v[1]
+                pos = v[2] if len(v) > 2 else True
                 for is_some in (True, False):
-                    if name in asg and asg[name] != is_some:
+                    aval = is_some if pos else (not is_some)
+                    if name in asg and asg[name] != aval:
                         continue
                     a2 = dict(asg)
-                    a2[name] = is_some
+                    a2[name] = aval
                     tgt = arms.get(1 if is_some else 0, other)
                     if body.blocks[tgt]["term"]["k"] == "unreachable":
                         continue
